@@ -44,7 +44,7 @@ fn literal(t: &mut Tape) -> String {
         // aborts the process - the harness, when the library runs in it)
         12 => "65536".into(),
         13 => "0.1".into(),
-        14 => "2".into(),
+        14 => (*t.pick(&["2", "-0", "0 times -1", "-0.0"])).into(),
         _ => "10".into(),
     }
 }
@@ -328,13 +328,29 @@ pub fn gen_soup(t: &mut Tape) -> Soup {
         out.push('\n');
     }
     let n = 3 + t.draw(9);
+    // one soup in ten has words the lexer rejects, of several kinds, on
+    // lines of their own among the statements (the program does not parse;
+    // what is reported for it is workload too)
+    let garbled = t.chance(1, 10);
     for _ in 0..n {
         statement(t, &mut out, 0, nfuncs, 0);
+        if garbled && t.chance(1, 2) {
+            out.push_str(*t.pick(&[
+                "Say under_score\n",
+                "Say ab1c\n",
+                "Say @\n",
+                "Put # into Alpha\n",
+                "Say 1.2.3x\n",
+                "Shout x9 plus y_z\n",
+                "Say \"never closed\n",
+                "(never closed\n",
+            ]));
+        }
     }
     let mut input = Vec::new();
     for i in 0..t.draw(4) {
         input.extend_from_slice(
-            format!("{}\n", *t.pick(&["42", "text line", "", "3.5", "ÿ", "true"]))
+            format!("{}\n", *t.pick(&["42", "text line", "", "3.5", "ÿ", "true", "7\r", "crlf line\r"]))
                 .replace("text line", &format!("text line {}", i))
                 .as_bytes(),
         );
